@@ -148,9 +148,51 @@ def _root_.MV.Action.refusedReq : Action → Bool
   | .allocFail .. | .reallocFail .. => true
   | _ => false
 
+/-- a stop that unwinds (as opposed to an abort, an illegal access or a hang) -/
+def _root_.MV.Panic.unwinding : Panic → Bool
+  | .overflow | .divZero | .explicit => true
+  | _ => false
+
+theorem make_layout_error_unwinding (E : Env) (c a : Nat) (p : Panic) (h : make_layout E c a = .error p) :
+    p.unwinding = true := by
+  have hW : hdrSize < W := by decide
+  have hna : ∀ n, n < W → ∀ q, next_aligned E n a = .error q → q.unwinding = true := by
+    intro n hn q hq
+    by_cases ha : a = 0
+    · subst ha; rw [next_aligned_zero] at hq; cases hq; rfl
+    · rw [next_aligned_eq _ _ _ (Nat.pos_of_ne_zero ha) hn] at hq
+      split at hq <;> simp at hq; subst hq; rfl
+  have hexp : ∀ {α} (o : Option α) (q : Panic), expectSome o = .error q → q.unwinding = true := by
+    intro α o q hq; cases o <;> simp [expectSome] at hq; subst hq; rfl
+  unfold make_layout at h
+  by_cases hc : c = 0
+  · simp only [hc, beq_self_eq_true, if_true] at h
+    cases h1 : next_aligned E hdrSize a with
+    | error q => simp [h1] at h; subst h; exact hna _ hW _ h1
+    | ok v => simp [h1] at h; exact hexp _ _ h
+  · simp only [show (c == 0) = false by simp [hc], Bool.false_eq_true, if_false] at h
+    cases h2 : expectSome (checkedMul c E.c.elemSize) with
+    | error q => simp [h2] at h; subst h; exact hexp _ _ h2
+    | ok v2 =>
+      have hv2 : v2 < W := by
+        rw [expectSome_eq_ok] at h2; unfold checkedMul at h2; split at h2 <;> simp at h2; omega
+      simp [h2] at h
+      cases h3 : next_aligned E hdrSize a with
+      | error q => simp [h3] at h; subst h; exact hna _ hW _ h3
+      | ok v3 =>
+        simp [h3] at h
+        cases h4 : next_aligned E v2 a with
+        | error q => simp [h4] at h; subst h; exact hna _ hv2 _ h4
+        | ok v4 =>
+          simp [h4] at h
+          cases h5 : expectSome (checkedAdd v3 v4) with
+          | error q => simp [h5] at h; subst h; exact hexp _ _ h5
+          | ok v5 => simp [h5] at h; exact hexp _ _ h
+
 inductive GrowOutcome (E : Env) (s : GS) (c a : Nat) : Except Panic Unit × GS → Prop
   | noop : c = s.C → a = s.A E → GrowOutcome E s c a (.ok (), s)
-  | rejected (p : Panic) : p ≠ .allocError → p ≠ .fuel → GrowOutcome E s c a (.error p, s)
+  | rejected (p : Panic) : p ≠ .allocError → p ≠ .fuel → (p = .debugAssert ∧ c < s.L) ∨ p.unwinding = true →
+      GrowOutcome E s c a (.error p, s)
   | allocFailed (req : Action) (L : Layout) : make_layout E c a = .ok L →
       req.asksFor L.size a → req.refusedReq = true → GrowOutcome E s c a (.error .allocError, s.refused req)
   | grown (req : Action) (L : Layout) : make_layout E c a = .ok L → s.L ≤ c →
@@ -215,7 +257,7 @@ theorem grow_cases (E : Env) (s : GS) (c a : Nat) (hf : s.fresh = none) :
     GrowOutcome E s c a (grow E c a s) := by
   rw [grow_spec E s c a hf]
   by_cases h1 : c < s.L
-  · simp only [h1, if_true]; exact .rejected _ (by simp) (by simp)
+  · simp only [h1, if_true]; exact .rejected _ (by simp) (by simp) (.inl ⟨rfl, h1⟩)
   · simp only [h1, if_false]
     by_cases h2 : c = s.C ∧ a = s.A E
     · rw [if_pos h2]; exact .noop h2.1 h2.2
@@ -223,7 +265,7 @@ theorem grow_cases (E : Env) (s : GS) (c a : Nat) (hf : s.fresh = none) :
       cases hL : make_layout E c a with
       | error p =>
         obtain ⟨hp1, hp2⟩ := make_layout_error_kind E c a p hL
-        exact .rejected p hp1 hp2
+        exact .rejected p hp1 hp2 (.inr (make_layout_error_unwinding E c a p hL))
       | ok L =>
         have hLa := (make_layout_honest E c a L hL).2.1
         cases hd : s.isDefault with
@@ -239,7 +281,7 @@ theorem grow_cases (E : Env) (s : GS) (c a : Nat) (hf : s.fresh = none) :
           cases hL0 : make_layout E s.cap a with
           | error p =>
             obtain ⟨hp1, hp2⟩ := make_layout_error_kind E _ a p hL0
-            exact .rejected p hp1 hp2
+            exact .rejected p hp1 hp2 (.inr (make_layout_error_unwinding E _ a p hL0))
           | ok L0 =>
             have hL0a := (make_layout_honest E _ a L0 hL0).2.1
             cases hr : allocRefused E s L.size with
